@@ -19,7 +19,7 @@ Definition std_arith (S : sem) (T : cty) (op : bop) (v a : Z) : Z :=
   | CInt w sg => norm w sg (raw op v a)
   | CPtr sz => norm 64 false (raw op v (sz * a))
   | CFlt => match op with BAdd => fadd S v a | BSub => fsub S v a | _ => v end
-  | CBool => v
+  | CBool | CFltW => v
   end.
 
 Definition std_store : opfun := fun _ _ _ v a1 _ => Some (a1, 0, a1).
